@@ -437,6 +437,48 @@ def leapfrog_model(ctx):
     ctx.case(nontrivial_key="leapfrog-model")
 
 
+def bounded_support(G, ctx):
+    """targets with BOUNDED support: a gradient proposal that leaves the support has log density NaN / -inf; the MH rule
+    (log u < min(0, log alpha), false for NaN) must reject it and return the input trace unchanged - the chain can never
+    hold a state outside the support.  (Reasoning over the reals cannot see this: it is about the float value NaN.)"""
+    import jax
+    import jax.numpy as jnp
+    import jax.random as jr
+    import genjax.inference.mcmc as M
+    from genjax import sel
+    beta, flip = G.beta, G.flip
+
+    @G.gen
+    def coin():
+        p = beta(2.0, 2.0) @ "p"
+        for i in range(5):
+            flip(p) @ f"y{i}"
+        return p
+
+    obs = {f"y{i}": jnp.array(i != 3) for i in range(5)}
+    for kernel, mk in (("hmc", lambda eps: (lambda t: M.hmc(t, sel("p"), eps, 3))), ("mala", lambda eps: (lambda t: M.mala(t, sel("p"), eps)))):
+        for eps in (0.6, 1.5):
+            case = {"kind": "bounded-support", "kernel": kernel, "eps": eps, "target": "beta(2,2)-bernoulli x5, start p=0.93"}
+            try:
+                tr, _ = G.seed(coin.generate)(jr.key(3), {**obs, "p": jnp.float32(0.93)})
+                keys = jr.split(jr.key(ctx.seed + 40), 48)
+                outs = jax.jit(jax.vmap(lambda k: G.seed(mk(eps))(k, tr)))(keys)
+                ps = np.asarray(outs.get_choices()["p"], dtype=np.float64)
+                sc = np.asarray(jax.vmap(lambda t: t.get_score())(outs), dtype=np.float64)
+                bad = [float(x) for x in ps if not (0.0 < x < 1.0)]
+                if bad or not np.all(np.isfinite(sc)):
+                    case.update({"states_outside_support": bad[:5], "n_outside": len(bad), "n_nonfinite_score": int((~np.isfinite(sc)).sum())})
+                    ctx.property_failure(None, f"{kernel} (eps={eps}): {len(bad)} of 48 one-step results lie OUTSIDE the support of the target "
+                                         f"(e.g. p={bad[:3]}): a proposal with NaN / -inf density was accepted", case)
+                moved = int((np.abs(ps - 0.93) > 1e-7).sum())
+                case["moved"] = moved
+            except Exception as ex:
+                impl.reset_handlers()
+                ctx.property_failure(None, f"{kernel} on a bounded-support target raised {type(ex).__name__}: {str(ex)[:160]}", case)
+            ctx.case(sample=case if eps == 1.5 else None, nontrivial_key=("bounded", kernel, eps))
+            ctx.count("bounded-support:" + kernel)
+
+
 def shard(ctx, jobs):
     import random
     G = impl.load()
@@ -464,6 +506,7 @@ def run(ctx, audit):
     n = 12
     common.run_sharded(ctx, "props.c09", "shard", [(jobs[i::n],) for i in range(n)])
     leapfrog_model(ctx)
+    bounded_support(G, ctx)
     return {"rule": RULE}
 
 
